@@ -1,7 +1,11 @@
 PROPERTY = "C02"
 LEVEL = "proof"
 CONTRACT_MODULES = ["modeltypes", "config", "metadata", "holders", "scope"]
-FUNCTIONS = ["sqllineage.core.holders.SubQueryLineageHolder.get_alias_mapping_from_table_group"]
+COLS = ["modeltypes", "config", "models", "columns"]
+MC = "sqllineage.core.models.Column."
+FUNCTIONS = ["sqllineage.core.holders.SubQueryLineageHolder.get_alias_mapping_from_table_group"] + [
+    (MC + f, COLS) for f in ("__init__", "parent", "parent@setter", "parent_candidates", "to_source_columns")
+]
 EXPLANATION = (
     "Exactness of single-statement column lineage is, for the most part, a statement about the meaning of SQL text as parsed "
     "by sqlfluff/sqlparse grammars, which no contract on the repository's code can express (same reason as C01). What the "
@@ -10,13 +14,23 @@ EXPLANATION = (
     "resolves to a relation OF THIS SCOPE (no leak from sibling scopes that share the holder graph); a name that is an "
     "alias of a relation of the scope resolves to a relation that carries it, and thereby shadows a bare table name of the "
     "same spelling (the repaired D8); a name that is no alias resolves to a Table of that bare or qualified name; every "
-    "alias and every table name of the scope is a key. The dataflow clauses (which columns an expression references, "
+    "alias and every table name of the scope is a key. REFERENCE RESOLUTION against that map is under contract too: "
+    "Column.to_source_columns is executed from its real source with its three loops cut by invariants / step contracts (set "
+    "loops in adversarial order): every iteration of the reference loop keeps what was collected and, unless the reference is "
+    "a wildcard, adds a new column carrying the referenced name; for a qualified reference whose qualifier is a key of the map "
+    "the owner candidates of every new column are EXACTLY {map[qualifier]}; for an unknown qualifier they are new Table objects "
+    "only (the fall-back, known finding D21 of C06); for an unqualified reference they are EXACTLY the relations in scope (the "
+    "only relation, or unresolved with all candidates - never a guess); every iteration of the wildcard loop adds a column `*` "
+    "owned by exactly the visited relation. Column.__init__ / parent / parent setter / parent_candidates (what 'owner' and "
+    "'candidates' mean) carry their own contracts. The step contracts compose over the reference list by the usual induction "
+    "(stated, not mechanised). The dataflow clauses (which columns an expression references, "
     "target naming, set-operation positions, unresolved references with candidates) are checked by the bounded native run "
     "against a construction-time oracle; they are not counted as proved."
 )
 TRUSTED = ["pyvc translator and its networkx model", "z3", "A_eq"]
 ASSUMPTIONS = [
-    "Column.to_source_columns and SourceHandlerMixin.end_of_query_cleanup (the consumers of the map) are not under contract: nested loops over sets of freshly allocated columns compared by printed name; covered by the bounded run only",
+    "SourceHandlerMixin.end_of_query_cleanup (the caller that wires resolved references to target columns, per set-operation branch) is not under contract: covered by the bounded run only",
+    "to_source_columns: set insertion of the new columns is modelled under A_eq (a new object is a new element); two references that print alike collapse into one element in CPython, which only removes duplicates",
     "expression traversal (extractors) is outside reach: bounded run only",
 ]
 REPLAYERS = {("", ""): {"script": "replay/c02_native.py", "args": []}}
@@ -26,14 +40,16 @@ BOUNDED = [
         "script": "replay/c02_native.py",
         "args_quick": [],
         "args_thorough": ["--thorough"],
-        "bound": "9 scope shapes (1-3 relations, aliases or none, derived table with/without inner alias, CTE, join with derived table) x 7 select-item kinds (column, alias, function, CASE, CAST, arithmetic, window) x {names, explicit column list} + unqualified references per shape + 6 set-operation groups (2-3 branches, same alias in sibling branches, explicit list) x {ansi, non-validating}; oracle computed at construction",
+        "bound": "17 scope shapes (1-3 relations, aliases or none, derived table with/without inner alias, CTE, join with derived table) x 7 select-item kinds (column, alias, function, CASE, CAST, arithmetic, window) x {names, explicit column list} + unqualified references per shape + 6 set-operation groups (2-3 branches, same alias in sibling branches, explicit list) + 5 SELECT * statements (table, derived table, CTE, joins of them) x {ansi, non-validating}; oracle computed at construction",
     }
 ]
 LEVEL_TEXT = (
-    "Proof (z3) of the scope map's contract (resolution inside the scope, alias shadowing, completeness of keys). The "
+    "Proof (z3) of the scope map's contract (resolution inside the scope, alias shadowing, completeness of keys) and of "
+    "reference resolution against it (Column.to_source_columns: exact owner candidates per reference kind, step contracts "
+    "under adversarial set order; Column owner bookkeeping). The "
     "dataflow clauses of C02 are a bounded native stand-in against a construction-time oracle. D8 repaired; D26 (sqlparse "
     "analyzer ignores an explicit column list) is an open known finding."
 )
 DESIGN_REF = "DESIGN.md 6/C02, 11"
-LEVEL_NOTE = "partial: only scope resolution is proved; dataflow clauses bounded only; D26 open"
-TECHNIQUE = "contract-based deductive verification of scope resolution (alias map postcondition) + bounded native generated-statement run with construction-time oracle"
+LEVEL_NOTE = "partial: scope map and reference resolution are proved; dataflow clauses bounded only; D26 open"
+TECHNIQUE = "contract-based deductive verification of scope resolution (alias map postcondition; loop step contracts and invariants of Column.to_source_columns) + bounded native generated-statement run with construction-time oracle"
